@@ -407,6 +407,74 @@ def _annotate(tree):
     return tree
 
 
+class _Hoist(ast.NodeTransformer):
+    """P4: `return <expr>` -> `_h = <expr>; return _h` (every function, non-trivial expressions only)"""
+    def _body(self, stmts):
+        out = []
+        for st in stmts:
+            if isinstance(st, ast.Return) and st.value is not None and not isinstance(st.value, (ast.Name, ast.Constant)):
+                out.append(ast.Assign(targets=[ast.Name(id='_hoisted', ctx=ast.Store())], value=st.value))
+                out.append(ast.Return(value=ast.Name(id='_hoisted', ctx=ast.Load())))
+            else:
+                out.append(st)
+        return out
+
+    def visit_FunctionDef(self, node):
+        self.generic_visit(node)
+        node.body = self._body(node.body)
+        return node
+
+    def visit_If(self, node):
+        self.generic_visit(node)
+        node.body = self._body(node.body); node.orelse = self._body(node.orelse)
+        return node
+
+
+class _TernaryToIf(ast.NodeTransformer):
+    """P6a: `return a if c else b` -> if c: return a / return b ;  `x = a if c else b` -> if c: x = a else: x = b"""
+    def _body(self, stmts):
+        out = []
+        for st in stmts:
+            if isinstance(st, ast.Return) and isinstance(st.value, ast.IfExp):
+                out.append(ast.If(test=st.value.test, body=[ast.Return(value=st.value.body)], orelse=[]))
+                out.append(ast.Return(value=st.value.orelse))
+            elif isinstance(st, ast.Assign) and isinstance(st.value, ast.IfExp) and len(st.targets) == 1 and isinstance(st.targets[0], ast.Name):
+                out.append(ast.If(test=st.value.test, body=[ast.Assign(targets=st.targets, value=st.value.body)], orelse=[ast.Assign(targets=st.targets, value=st.value.orelse)]))
+            else:
+                out.append(st)
+        return out
+
+    def visit_FunctionDef(self, node):
+        self.generic_visit(node)
+        node.body = self._body(node.body)
+        return node
+
+
+class _CompToLoop(ast.NodeTransformer):
+    """P6b: `x = [elt for t in it if c]` (single generator, statement level) -> x = []; for t in it: if c: x.append(elt)"""
+    def _body(self, stmts):
+        out = []
+        for st in stmts:
+            if (isinstance(st, ast.Assign) and len(st.targets) == 1 and isinstance(st.targets[0], ast.Name) and isinstance(st.value, ast.ListComp)
+                    and len(st.value.generators) == 1 and not st.value.generators[0].is_async):
+                g = st.value.generators[0]; nm = st.targets[0].id
+                if nm in {n.id for n in ast.walk(st.value) if isinstance(n, ast.Name)}:
+                    out.append(st); continue
+                app = ast.Expr(ast.Call(func=ast.Attribute(value=ast.Name(id=nm, ctx=ast.Load()), attr='append', ctx=ast.Load()), args=[st.value.elt], keywords=[]))
+                body = [app]
+                for c in reversed(g.ifs): body = [ast.If(test=c, body=body, orelse=[])]
+                out.append(ast.Assign(targets=[ast.Name(id=nm, ctx=ast.Store())], value=ast.List(elts=[], ctx=ast.Load())))
+                out.append(ast.For(target=g.target, iter=g.iter, body=body, orelse=[]))
+            else:
+                out.append(st)
+        return out
+
+    def visit_FunctionDef(self, node):
+        self.generic_visit(node)
+        node.body = self._body(node.body)
+        return node
+
+
 def preserving_variants(sources):
     def apply(fn):
         out = {}
@@ -426,6 +494,9 @@ def preserving_variants(sources):
     yield 'P3b reorder dispatch-table entries', apply(_reorder_tables)
     yield 'P5 commute products', apply(lambda t: _Commute().visit(t))
     yield 'P8 add docstrings and annotations', apply(_annotate)
+    yield 'P4 hoist returned expressions into a local', apply(lambda t: _Hoist().visit(t))
+    yield 'P6a conditional expressions to if statements', apply(lambda t: _TernaryToIf().visit(t))
+    yield 'P6b comprehensions to accumulate loops', apply(lambda t: _CompToLoop().visit(t))
 
 
 # ---------------------------------------------------------------------------------------------------- runner
